@@ -23,7 +23,7 @@ pub const RULE: &str = "corpus = K generated interfaces (quick 60, thorough 400)
 (structs with fields over every type constructor to depth 2, enums), 1..4 methods with 0..3 inputs \
 and outputs, 0..3 errors; non-recursive, names collision-free after snake / Pascal conversion, \
 drawn from pools that contain acronyms (GetURL), digits (Get2FA), camelCase / snake_case / kebab \
-spellings and Rust keywords (type, self, move, match, try). plus 9 systematic interfaces (every wrapper shape over every base type as the only input, only output and only field). Each interface text is parsed by zlink, \
+spellings and Rust keywords (type, self, move, match, try). plus systematic interfaces (every wrapper shape over every base type as the only input, only output and only field; every Rust keyword as field / input / output / error parameter / enum value and, capitalised, as method name). Each interface text is parsed by zlink, \
 turned into a Rust module by zlink_codegen::generate_interface, compiled with a harness-written \
 driver and run against a scripted socket. Oracle: the module compiles; for every method the frame \
 sent equals {method: '<interface>.<IDL name>', parameters: {IDL parameter names: JSON of the \
@@ -244,6 +244,28 @@ pub fn systematic_ifaces(first_idx: usize) -> Vec<(usize, Iface)> {
         }
         members.push(Member::Error { name: "Failed".into(), fields: vec![Fld { name: "theValue".into(), ty: w(Ty::Str), comments: vec![] }], comments: vec![] });
         out.push((first_idx + wi, Iface { name: format!("org.gen.sys.{wname}"), members, comments: vec![] }));
+    }
+    // Every Rust keyword (strict, reserved, weak) as a field of a custom type, as a method input and
+    // output, as an error parameter and as an enum value, nine per interface; and, capitalised, as
+    // method names (`Continue` -> `fn r#continue`).
+    let base = first_idx + out.len();
+    for (ki, chunk) in KEYWORDS.chunks(9).enumerate() {
+        let flds = |ty: fn(usize) -> Ty| -> Vec<Fld> { chunk.iter().enumerate().map(|(i, k)| Fld { name: k.to_string(), ty: ty(i), comments: vec![] }).collect() };
+        let mut members = vec![
+            Member::Type { name: "Holder".into(), body: Body::Struct(flds(|i| if i % 2 == 0 { Ty::Str } else { Ty::Opt(Box::new(Ty::Int)) })), comments: vec![] },
+            Member::Type { name: "Choice".into(), body: Body::Enum(chunk.iter().map(|k| Var { name: k.to_string(), comments: vec![] }).collect()), comments: vec![] },
+            Member::Method { name: "Take".into(), inputs: flds(|i| if i % 3 == 0 { Ty::Int } else { Ty::Str }), outputs: vec![], comments: vec![] },
+            Member::Method { name: "Give".into(), inputs: vec![], outputs: flds(|i| if i % 3 == 1 { Ty::Int } else { Ty::Str }), comments: vec![] },
+            Member::Method { name: "Pick".into(), inputs: vec![Fld { name: "choice".into(), ty: Ty::Custom("Choice".into()), comments: vec![] }], outputs: vec![Fld { name: "holder".into(), ty: Ty::Custom("Holder".into()), comments: vec![] }], comments: vec![] },
+            Member::Error { name: "Failed".into(), fields: flds(|_| Ty::Str), comments: vec![] },
+        ];
+        for k in chunk {
+            let mn = k.to_pascal_case();
+            if !["Self", "Take", "Give", "Pick"].contains(&mn.as_str()) && !members.iter().any(|m| matches!(m, Member::Method { name, .. } if *name == mn)) {
+                members.push(Member::Method { name: mn, inputs: vec![], outputs: vec![], comments: vec![] });
+            }
+        }
+        out.push((base + ki, Iface { name: format!("org.gen.kw.k{ki}"), members, comments: vec![] }));
     }
     out
 }
